@@ -33,7 +33,20 @@ type tcPoint struct {
 }
 
 func (p tcPoint) valuer() map[string]interface{} {
-	return map[string]interface{}{"host": p.host, "region": p.region, "n": p.n, "x": p.x}
+	// "Name" and "Key" are a tag and a field whose names are keywords but for
+	// their letter case
+	return map[string]interface{}{"host": p.host, "region": p.region, "n": p.n, "x": p.x, "Name": p.host, "Key": p.n}
+}
+
+// tcRefTypes lists every reference of e as name::type (time references left out).
+func tcRefTypes(e influxql.Expr) map[string]bool {
+	out := map[string]bool{}
+	influxql.WalkFunc(e, func(n influxql.Node) {
+		if v, ok := n.(*influxql.VarRef); ok && !strings.EqualFold(v.Val, "time") {
+			out[v.Val+"::"+v.Type.String()] = true
+		}
+	})
+	return out
 }
 
 func (n *tcNode) render() string {
@@ -210,7 +223,31 @@ var tcRegions = []string{"us", "eu"}
 // pred builds one non-time predicate over host / region / n / x.
 func (c *tcCtx) pred() *tcNode {
 	rg := c.rg
-	switch rg.Intn(10) {
+	switch rg.Intn(14) {
+	case 10:
+		// references that carry a cast
+		k := rg.Intn(4)
+		text := []string{"host::tag = 'a'", "n::integer > 1", "x::float < 1.5", "region::tag != 'us'"}[k]
+		return &tcNode{op: "pred", text: text, pred: [](func(p tcPoint) bool){
+			func(p tcPoint) bool { return p.host == "a" }, func(p tcPoint) bool { return p.n > 1 },
+			func(p tcPoint) bool { return p.x < 1.5 }, func(p tcPoint) bool { return p.region != "us" }}[k]}
+	case 11:
+		// a tag and a field named like keywords in another letter case
+		if rg.Bool() {
+			return &tcNode{op: "pred", text: `"Name" = 'a'`, pred: func(p tcPoint) bool { return p.host == "a" }}
+		}
+		return &tcNode{op: "pred", text: `1 < "Key"`, pred: func(p tcPoint) bool { return 1 < p.n }}
+	case 12, 13:
+		// arithmetic with signed operands: the reference meaning is the
+		// library's own evaluation of the predicate as written
+		text := rg.Pick("n & -n = 2", "6 / -n = -3", "n * -(n + 1) < 0", "x / -x < 0", "7 % -n = 1", "n - -n > 2", "(n | 1) & -n = 2", "x * +x > 2", "n / +2 >= 1", "6 & +n = 2")
+		e, err := influxql.ParseExpr(text)
+		if err != nil {
+			panic("harness: " + text + ": " + err.Error())
+		}
+		return &tcNode{op: "pred", text: text, pred: func(p tcPoint) bool {
+			return influxql.EvalBool(influxql.CloneExpr(e), p.valuer())
+		}}
 	case 8, 9:
 		// a comparison of constants: always true or always false, whatever the point
 		k := rg.Intn(10)
